@@ -194,11 +194,16 @@ func (db *DB) rawset(entry types.Entry) {
 	if db.memtable.size() >= db.config.MemtableByteThreshold {
 		db.memtable.freeze()
 		imt := db.memtable
+		mt := imt.reset()
+
+		// readers (search) and the flusher (run) access memtable and immutables under db.mu,
+		// imt must be in immutables before the flusher can receive it
+		db.mu.Lock()
+		db.immutables.PushBack(imt)
+		db.memtable = mt
+		db.mu.Unlock()
 
 		db.flushC <- imt
-		db.immutables.PushBack(imt)
-
-		db.memtable = db.memtable.reset()
 	}
 }
 
@@ -223,8 +228,9 @@ LOOP:
 			db.flushImmutable(imt)
 			db.manager.checkAndCompact()
 
+			// immutables are flushed in FIFO order, imt is the oldest one
 			db.mu.Lock()
-			db.immutables.Remove(db.immutables.Back())
+			db.immutables.Remove(db.immutables.Front())
 			db.mu.Unlock()
 
 			if closed && len(db.flushC) == 0 {
